@@ -260,14 +260,24 @@ impl<'a> IExec<'a> {
                 return;
             }
         }
+        let mut decoded = decoded;
         if let Some(m) = &decoded {
             let re = m.encode();
-            if !ctx.check(re == payload, &["C10", "C04"], "codec/accepted-non-canonical-encoding", || {
+            let canonical = re == payload;
+            // For C10 / C04 this is the violation.  For the other properties the model keeps to the
+            // canonical reading — these bytes are no message at all, the delivery must be refused — and
+            // the run goes on, so that what a lenient decoder leads to (a token nobody requested, an
+            // amount nobody announced) is seen by the property it hurts.
+            if !ctx.check_for_focus_only(canonical, &["C10", "C04"], "codec/accepted-non-canonical-encoding", || {
                 format!("decoder accepted bytes that are not the canonical encoding of what it returned: input {} re-encoded {}", hex::encode(&payload), hex::encode(&re))
             }) {
                 return;
             }
-            ctx.count("probe.in_situ_decoded_and_reencoded");
+            if canonical {
+                ctx.count("probe.in_situ_decoded_and_reencoded");
+            } else {
+                decoded = None;
+            }
         } else {
             ctx.count("probe.in_situ_rejected_by_decoder");
         }
@@ -309,11 +319,12 @@ impl<'a> IExec<'a> {
             if k == 1 {
                 ctx.count("F1.duplicate_delivery");
             }
-            self.deliver(ctx, &del, &decoded, if k == 0 { abort } else { None });
+            let kind_tag = if matches!(body, InBody::Deploy { .. }) { "C11" } else { "C05" };
+            self.deliver(ctx, &del, &decoded, kind_tag, if k == 0 { abort } else { None });
         }
     }
 
-    fn deliver(&mut self, ctx: &mut Ctx, del: &Delivery, decoded: &Option<AHub>, abort: Option<u16>) {
+    fn deliver(&mut self, ctx: &mut Ctx, del: &Delivery, decoded: &Option<AHub>, kind_tag: &'static str, abort: Option<u16>) {
         let env = self.sim.env.clone();
         let its = self.its();
         let key = (del.source_chain.clone(), del.message_id.clone());
@@ -441,7 +452,10 @@ impl<'a> IExec<'a> {
             let cls = if only_hub_addr { "its.execute/source-address-not-hub-address".to_string() } else { format!("inbound/acted-on:{}", reasons[0]) };
             let tags: &[&'static str] = match reasons[0] {
                 "token-id-already-registered" | "unrepresentable-metadata" | "undecodable-minter" => &["C04", "C11"],
-                "undecodable-or-unsupported-payload" | "not-a-receive-from-hub-wrapper" => &["C04", "C10"],
+                "undecodable-or-unsupported-payload" | "not-a-receive-from-hub-wrapper" => match kind_tag {
+                    "C11" => &["C04", "C10", "C11"],
+                    _ => &["C04", "C10", "C05"],
+                },
                 "insufficient-custody" | "unknown-token" | "undecodable-recipient" | "token-refuses-this-receiver" | "credit-would-overflow" => &["C04", "C05"],
                 _ => &["C04"],
             };
